@@ -272,7 +272,9 @@ impl From<&RangeList> for RangeMap {
 
         let mut exists_map = vec![false; map_len];
         for range in range_list.get_ranges().iter() {
-            for slot_num in range.start()..=range.end() {
+            // The ranges are not trustworthy. Only the slots inside the map matter.
+            let end = std::cmp::min(range.end(), SLOT_NUM - 1);
+            for slot_num in range.start()..=end {
                 if let Some(slot) = slot_num
                     .checked_sub(min_slot)
                     .and_then(|inner_index| exists_map.get_mut(inner_index))
